@@ -98,6 +98,12 @@ def _worker_init(scratch_root):
     os.environ.setdefault('PYTHONHASHSEED', '0')
     import random
     random.seed(0)
+    try:
+        import resource
+        lim = int(os.environ.get('GXV_WORKER_MEM_GB', '10')) * 1024 ** 3
+        resource.setrlimit(resource.RLIMIT_AS, (lim, lim))  # a runaway allocation becomes a MemoryError inside the run, not an OOM kill
+    except Exception:
+        pass
     import faulthandler, signal
     dbg = os.environ.get('GXV_DEBUG_DIR')
     if dbg:
@@ -253,12 +259,21 @@ def _campaign(ctx, scratch_root, mod_name, mod, pid, a, seed, t0):
                     merged.violations.extend(r['violations'])
         it = pool.imap_unordered(_run_shard, [(mod_name, s, deadline) for s in specs])
         hard_deadline = deadline + max(300, budget)  # shards stop generating at `deadline`; this only catches hangs
+        pids0 = {p.pid for p in pool._pool}
         while True:
             try:
-                r = it.next(timeout=max(1.0, hard_deadline - time.time()))
+                r = it.next(timeout=10.0)
             except StopIteration:
                 break
             except mp.TimeoutError:
+                if {p.pid for p in pool._pool} != pids0 or any(p.exitcode is not None for p in pool._pool):
+                    # a worker process died (e.g. killed for memory): its shard is lost and the pool would wait for ever
+                    pool.terminate()
+                    print(f'HARNESS-ERROR property={pid} a worker process died (killed?) after {int(time.time() - t0)} s: '
+                          f'inconclusive, not a violation')
+                    return 2
+                if time.time() < hard_deadline:
+                    continue
                 pool.terminate()
                 print(f'HARNESS-ERROR property={pid} shard(s) still running {int(time.time() - t0)} s after start '
                       f'(budget {budget} s): inconclusive, not a violation')
